@@ -425,6 +425,45 @@ def monitor_dependencies(w: World, wf_spec: dict[str, dict[str, Any]]) -> tuple[
     return None
 
 
+def _ancestors_of(spec: dict[str, dict[str, Any]], ref: str) -> set[str]:
+    seen: set[str] = set()
+    todo = list(spec.get(ref, {}).get("deps", []))
+    while todo:
+        r = todo.pop()
+        if r not in seen:
+            seen.add(r)
+            todo.extend(spec.get(r, {}).get("deps", []))
+    return seen
+
+
+def monitor_dataflow(w: World, wf_spec: dict[str, dict[str, Any]]) -> tuple[str, Any] | None:
+    """C16 at engine level, on the keys that are path-ordered by construction (``o_<ref>`` is
+    published by stage <ref> only): the context handed to a task holds, for every ancestor that has
+    published, the value of that ancestor's latest execution (the current loop iteration) and holds
+    no ``o_<ref>`` of a stage that is not an ancestor."""
+    ents = w.ledger.entries
+    for i, e in enumerate(ents):
+        ref = e["ref"]
+        anc = _ancestors_of(wf_spec, ref)
+        ctx = e["ctx"]
+        for k in ctx:
+            if k.startswith("o_") and k[2:] != ref and k[2:] in wf_spec and k[2:] not in anc:
+                return ("sees_output_of_non_ancestor/%s<-%s" % (ref, k[2:]), {"stage": ref, "key": k, "ancestors": sorted(anc)})
+        for r in anc:
+            last = None
+            for p in ents[:i]:
+                if p["ref"] == r and ("o_" + r) in (p.get("out") or {}):
+                    last = p
+            if last is None:
+                continue
+            want = last["out"]["o_" + r]
+            got = ctx.get("o_" + r, "<absent>")
+            if got != want:
+                what = "missing" if got == "<absent>" else "stale"
+                return ("%s_ancestor_output/%s<-%s" % (what, ref, r), {"stage": ref, "task": e["task"], "ancestor": r, "seen": got, "latest_published": want, "execution": e["n"], "published_at": last["n"]})
+    return None
+
+
 def spec_of(wf: Any) -> dict[str, dict[str, Any]]:
     return {
         s.ref_id: {"deps": sorted(s.requisite_stage_ref_ids), "join": s.join_type.name, "threshold": s.join_threshold}
@@ -437,6 +476,7 @@ MONITORS = {
     "C04": lambda w, spec: monitor_single_start(w),
     "C02": lambda w, spec: monitor_single_start(w) or monitor_no_rerun_of_recorded(w),
     "C03": lambda w, spec: monitor_dependencies(w, spec),
+    "C16": lambda w, spec: monitor_dataflow(w, spec),
 }
 
 
